@@ -1290,25 +1290,15 @@ impl Parser {
         };
         while self.peek(&TokenEnum::LeftBracket) || self.peek(&TokenEnum::Dot) {
             if self.next_matches(&TokenEnum::LeftBracket).is_some() {
-                if let Some(Token(TokenEnum::UnsignedNum(i, UnsignedNumType::Unspecified), meta)) =
-                    self.tokens.peek()
-                {
-                    let i = *i;
-                    let meta = *meta;
-                    self.advance();
-                    let index =
-                        Expr::untyped(ExprEnum::NumUnsigned(i, UnsignedNumType::Usize), meta);
-                    let end = self.expect(&TokenEnum::RightBracket)?;
-                    let meta = join_meta(expr.meta, end);
-                    expr =
-                        Expr::untyped(ExprEnum::ArrayAccess(Box::new(expr), Box::new(index)), meta);
-                } else {
-                    let index = self.parse_expr()?;
-                    let end = self.expect(&TokenEnum::RightBracket)?;
-                    let meta = join_meta(expr.meta, end);
-                    expr =
-                        Expr::untyped(ExprEnum::ArrayAccess(Box::new(expr), Box::new(index)), meta);
+                // an unsuffixed number that is the whole index (`a[1]`) is a usize; in `a[1 + i]`
+                // the number only starts the index expression
+                let mut index = self.parse_expr()?;
+                if let ExprEnum::NumUnsigned(i, UnsignedNumType::Unspecified) = index.inner {
+                    index.inner = ExprEnum::NumUnsigned(i, UnsignedNumType::Usize);
                 }
+                let end = self.expect(&TokenEnum::RightBracket)?;
+                let meta = join_meta(expr.meta, end);
+                expr = Expr::untyped(ExprEnum::ArrayAccess(Box::new(expr), Box::new(index)), meta);
             } else if self.next_matches(&TokenEnum::Dot).is_some() {
                 let peeked = self.tokens.peek();
                 if let Some(Token(TokenEnum::Identifier(_), _)) = peeked {
